@@ -304,6 +304,45 @@ def _store_dataset():
 
 @harness(
     "C24",
+    timeout=(90, 300),
+    shards=[dict(op=o) for o in ("store", "n_set", "n_action", "n_create", "n_event_report")],
+    functions=["association:Association.send_c_store", "association:Association.send_n_*"],
+    bounds="each single-response SCU operation that carries a data set (one shard each) when the data set cannot be "
+           "encoded (dsutils.encode returns None) or encoding raises: the call fails cleanly - it raises the documented "
+           "ValueError (or returns), nothing is sent, no lock is held and the association reactor is not left paused",
+    stubs=_COMMON_STUBS + ["pynetdicom.association.encode replaced (returns None or raises, solver-symbolic choice)"],
+    outside="operations without a data set (C-ECHO)",
+)
+def request_not_encodable(raises: bool) -> bool:
+    """
+    post: _ == True
+    """
+    op = shard("op", "store")
+    with untraced():
+        assoc = make_assoc(MODE_REQUESTOR)
+        assoc._accepted_cx = {1: mk_cx(VERIF_UID, TS, 1), 3: mk_cx(CT, TS, 3), 5: mk_cx(FILM_SESSION, TS, 5)}
+        ds = _store_dataset()
+    assoc.dimse = RecordingDimse([])
+    saved = am.encode
+
+    def bad_encode(d, *a, **k):
+        if raises:
+            raise ValueError("stub: cannot encode")
+        return None
+
+    am.encode = bad_encode
+    try:
+        try:
+            _single_invoke(assoc, op, ds)
+        except (ValueError, AttributeError, RuntimeError):
+            pass                       # documented ways to refuse the request
+    finally:
+        am.encode = saved
+    return len(assoc.dimse.sent) <= 1 and not assoc.lock.locked() and assoc._reactor_checkpoint.is_set()
+
+
+@harness(
+    "C24",
     timeout=(120, 600),
     shards=[dict(op=o) for o in SINGLE_OPS],
     functions=["association:Association.send_c_echo", "association:Association.send_c_store", "association:Association.send_n_*",
